@@ -756,6 +756,9 @@ func jpfSortBy(arguments []interface{}) (interface{}, error) {
 	if err != nil {
 		return nil, err
 	}
+	// Sort a copy: the argument may be the caller's document or a literal
+	// shared by every use of the compiled expression.
+	arr = append([]interface{}(nil), arr...)
 	if _, ok := start.(float64); ok {
 		sortable := &byExprFloat{intr, node, arr, false}
 		sort.Stable(sortable)
